@@ -376,7 +376,7 @@ returns "err" instead, `jobctl_fault_keeps_level` applies and the key is retried
 theorem jobctl_created_task_recovered_partial {ok : Sys → Action → Prop} {j0 : JobObj} {s : Sys}
     (hr : Reach ok j0 s) (jo : JobObj) (hc : s.jobCache = some jo) (hjob : s.job = some jo)
     (hst : isStarted jo.job = true) (hnd : isDeleted jo.job = false) (hcan : canCreateTask jo.job = true)
-    (hncomp : (refreshedSummary s jo.job (tasks0 s jo.job)).complete = false)
+    (hncomp : (refreshedSummary s jo.job (tasks0 s jo jo.job)).complete = false)
     (reqs : List CreationRequest) (r : CreationRequest)
     (hreqs : computeMissingIndexesForCreation s.d jo.job (jo.job.indexes s.d) = some reqs) (hrm : r ∈ reqs)
     (hdue : reqDueNow s.clock r) (p : PodObj)
@@ -405,7 +405,7 @@ example :
     JEx.sRetry.jobCache = some (Ex.cachedOf JEx.sRetry) ∧ JEx.sRetry.job = some (Ex.cachedOf JEx.sRetry) ∧
     isStarted (Ex.cachedOf JEx.sRetry).job = true ∧ isDeleted (Ex.cachedOf JEx.sRetry).job = false ∧
     canCreateTask (Ex.cachedOf JEx.sRetry).job = true ∧
-    (refreshedSummary JEx.sRetry (Ex.cachedOf JEx.sRetry).job (tasks0 JEx.sRetry (Ex.cachedOf JEx.sRetry).job)).complete = false ∧
+    (refreshedSummary JEx.sRetry (Ex.cachedOf JEx.sRetry).job (tasks0 JEx.sRetry (Ex.cachedOf JEx.sRetry) (Ex.cachedOf JEx.sRetry).job)).complete = false ∧
     computeMissingIndexesForCreation JEx.sRetry.d (Ex.cachedOf JEx.sRetry).job
       ((Ex.cachedOf JEx.sRetry).job.indexes JEx.sRetry.d) = some [⟨Ex.d, 0, zeroTime⟩] ∧
     reqDueNow JEx.sRetry.clock ⟨Ex.d, 0, zeroTime⟩ ∧
